@@ -38,6 +38,7 @@ package device
 //@   && d.mapping >= 0 && d.mapping < len(d.config.KeyMappings)
 //@   && d.activeNotesCounter != nil && d.noteTracker != nil && d.analogNoteTracker != nil && d.keyTracker != nil
 //@   && d.actionTracker != nil && d.ccZeroed != nil
+//@   && d.eventProcessMutex != nil && d.externalTrackerMutex != nil && d.eventProcessMutex != d.externalTrackerMutex
 //@   && (forall ch byte :: ch < 16 ==> has(d.activeNotesCounter, ch) && d.activeNotesCounter[ch] != nil)
 //@   && (forall c1 byte, c2 byte :: c1 < 16 && c2 < 16 && c1 != c2 ==> d.activeNotesCounter[c1] != d.activeNotesCounter[c2])
 //@   && (forall k evdev.EvCode :: has(d.noteTracker, k) ==> d.noteTracker[k][0] <= 127 && d.noteTracker[k][1] < 16)
@@ -50,6 +51,21 @@ package device
 //@ pred held(d *Device) :=
 //@   forall ch byte, n byte :: sounding[ch][n] ==> ch < 16 && n < 128 && (d.activeNotesCounter[ch][n] >= 1 || cnt(d.analogNoteTracker, mkarr(n, ch)) >= 1)
 //@ pred InvCore(d *Device) := wf(d) && counted(d) && held(d)
+
+// ---- C16 (partial): lock discipline of the event thread as contracts.
+// `locked` = mutexes currently held (set by Lock, cleared by Unlock); `concurrent` = other goroutines of this device may be
+// running (set by a go statement, cleared by WaitGroup.Wait). Every write to a guarded field, or to a map held in one, is an
+// obligation `locked[mutex] || !concurrent`; the methods below are only called in such a context (implicit precondition).
+//@ ghost var locked set[Ref]
+//@ ghost var concurrent bool
+//@ guarded_by Device.eventProcessMutex [C16]: noteTracker, analogNoteTracker, activeNotesCounter, lastAnalogValue, actionTracker, ccZeroed, keyTracker, octave, semitone, channel, velocity, multiNote, mapping, ccLearning
+//@ guarded_by Device.externalTrackerMutex [C16]: externalNoteTracker
+// monitor invariant of the MIDI-input tracker: at Lock the handle in d.externalNoteTracker is whatever the last critical
+// section of another goroutine left there (Panic replaces the whole map), at Unlock it has to satisfy extOK again
+//@ lockinv Device.externalTrackerMutex [C16,C17] self: extOK(self)
+//@ lockctx [C16] locked[d.eventProcessMutex] || !concurrent : (*Device).NoteOn, (*Device).NoteOff, (*Device).AnalogNoteOn, (*Device).AnalogNoteOff, (*Device).OctaveDown, (*Device).OctaveUp, (*Device).OctaveReset, (*Device).SemitoneDown, (*Device).SemitoneUp, (*Device).SemitoneReset, (*Device).MappingDown, (*Device).MappingUp, (*Device).MappingReset, (*Device).ChannelDown, (*Device).ChannelUp, (*Device).ChannelReset, (*Device).CCLearningOn, (*Device).CCLearningOff, (*Device).Multinote, (*Device).Panic, (*Device).checkDoubleActions, (*Device).invokeActionPress, (*Device).invokeActionRelease, (*Device).handleKEYEvent, (*Device).handleABSEvent
+// sync.Mutex is not re-entrant: the event thread takes externalTrackerMutex inside Panic, so nothing on the way there may hold it
+//@ lockctx [C16] !locked[d.externalTrackerMutex] : (*Device).NoteOn, (*Device).NoteOff, (*Device).AnalogNoteOn, (*Device).AnalogNoteOff, (*Device).OctaveDown, (*Device).OctaveUp, (*Device).OctaveReset, (*Device).SemitoneDown, (*Device).SemitoneUp, (*Device).SemitoneReset, (*Device).MappingDown, (*Device).MappingUp, (*Device).MappingReset, (*Device).ChannelDown, (*Device).ChannelUp, (*Device).ChannelReset, (*Device).CCLearningOn, (*Device).CCLearningOff, (*Device).Multinote, (*Device).Panic, (*Device).checkDoubleActions, (*Device).invokeActionPress, (*Device).invokeActionRelease, (*Device).handleKEYEvent, (*Device).handleABSEvent
 
 // ---- NoteOn / NoteOff
 
@@ -250,11 +266,15 @@ package device
 //@   && s1 == upd(s0, ch, emptyset("set[byte]"))
 
 //@ func (*Device).Panic
+//@   ensures [C16] locked == old(locked)
 //@   requires wf(d)
 //@   let ch := d.channel
 //@   ensures [C01,C13] panicOut(old(out), old(outLen), out, outLen, old(sounding), sounding, ch)
 //@   ensures [C07] ccv == upd(old(ccv), 123, 0)
 //@   loop 1 invariant ccv == upd(old(ccv), 123, 0)
+//@   ensures [C17] extOK(d) && (forall c byte :: c < 16 ==> empty(d.externalNoteTracker[c]))
+//@   loop 2 invariant [C17] inmap != nil && (forall c byte :: c < i ==> has(inmap, c) && inmap[c] != nil && empty(inmap[c]) && allocated(inmap[c])) && i <= 16
+//@   ensures [C16] d.externalTrackerMutex != d.eventProcessMutex ==> (locked[d.eventProcessMutex] <==> old(locked[d.eventProcessMutex]))
 //@   ensures wf(d)
 //@   ensures [C01!] old(InvCore(d)) ==> InvCore(d)
 //@   loop 1 invariant note <= 128
@@ -264,7 +284,7 @@ package device
 //@   loop 1 invariant forall i int :: uint64(i - old(outLen)) >= uint64(1 + int(note)) ==> out[i] == old(out)[i]
 //@   loop 1 invariant sounding == upd(old(sounding), ch, emptyset("set[byte]"))
 //@   safety [C05,C13]
-//@   modifies out, outLen, sounding, ccv, d.externalNoteTracker
+//@   modifies out, outLen, sounding, ccv, d.externalNoteTracker, locked
 
 // ---- pair detection (C04): both keys of an up/down pair held resets that parameter, in this priority order
 
@@ -319,6 +339,7 @@ package device
 //@   && d.actionsRelease[config.Learning] == fnref("(*Device).CCLearningOff")
 
 //@ func (*Device).invokeActionPress
+//@   ensures [C16] locked == old(locked)
 //@   requires wf(d) && tableOK(d)
 //@   ensures [C04] d.octave == (if action == config.OctaveUp && old(d.octave) < 127 then old(d.octave) + 1 else if action == config.OctaveDown && old(d.octave) > -128 then old(d.octave) - 1 else d.octave)
 //@   ensures [C04] action != config.OctaveUp && action != config.OctaveDown ==> d.octave == old(d.octave)
@@ -330,10 +351,11 @@ package device
 //@   ensures [C02,C13] action != config.Panic ==> outLen == old(outLen) && out == old(out) && sounding == old(sounding)
 //@   ensures [C13] action == config.Panic ==> panicOut(old(out), old(outLen), out, outLen, old(sounding), sounding, old(d.channel))
 //@   ensures [C07] ccv == old(ccv) || ccv == upd(old(ccv), 123, 0)
+//@   ensures [C16] d.externalTrackerMutex != d.eventProcessMutex ==> (locked[d.eventProcessMutex] <==> old(locked[d.eventProcessMutex]))
 //@   ensures wf(d)
 //@   ensures [C01!] old(InvCore(d)) ==> InvCore(d)
 //@   safety [C04,C13]
-//@   modifies d.octave, d.semitone, d.channel, d.mapping, d.ccLearning, out, outLen, sounding, ccv, d.externalNoteTracker
+//@   modifies d.octave, d.semitone, d.channel, d.mapping, d.ccLearning, out, outLen, sounding, ccv, d.externalNoteTracker, locked
 
 //@ func (*Device).invokeActionRelease
 //@   requires wf(d) && tableOK(d)
@@ -358,6 +380,7 @@ package device
 //@ pred Inv(d *Device) := InvCore(d) && keysInv(d)
 
 //@ func (*Device).handleKEYEvent
+//@   ensures [C16] locked == old(locked)
 //@   requires wf(d) && tableOK(d) && ie != nil && (ie.Event.Value == 0 || ie.Event.Value == 1)
 //@   let code := ie.Event.Code
 //@   let press := ie.Event.Value == 1
@@ -419,7 +442,7 @@ package device
 //@   ensures wf(d) && tableOK(d)
 //@   ensures [C01!] old(Inv(d)) && old(envKey(d, ie)) ==> Inv(d)
 //@   safety [C01,C05]
-//@   modifies d.keyTracker[_], d.actionTracker[_], d.noteTracker[_], d.activeNotesCounter[_][_], d.octave, d.semitone, d.channel, d.mapping, d.ccLearning, d.multiNote, heap("[]int"), heap("*[1]int"), out, outLen, sounding, ccv, sigs, d.externalNoteTracker
+//@   modifies d.keyTracker[_], d.actionTracker[_], d.noteTracker[_], d.activeNotesCounter[_][_], d.octave, d.semitone, d.channel, d.mapping, d.ccLearning, d.multiNote, heap("[]int"), heap("*[1]int"), out, outLen, sounding, ccv, sigs, d.externalNoteTracker, locked
 
 // ---- axis events
 
@@ -442,6 +465,7 @@ package device
 //@   lav != nil && (forall m int, sub string :: 0 <= m && m < len(c.KeyMappings) && has(c.KeyMappings[m].Analog, sub) ==> has(lav, sub) && vals(lav)[sub] != nil)
 
 //@ func (*Device).handleABSEvent
+//@   ensures [C16] locked == old(locked)
 //@   requires wf(d) && tableOK(d) && ie != nil && cfgRanges(d.config) && cfgDz(d.config) && lavOK(d.config, d.lastAnalogValue) && envAbs(d, ie)
 //@   ensures lavOK(d.config, d.lastAnalogValue)
 //@   cut load(.DeadzoneAtCenter) [C05,C06] !isNaN(value) && value >= -1.0 && value <= 1.0 && (!canBeNegative ==> value >= 0.0) && (canBeNegative <==> min < 0)
@@ -498,7 +522,7 @@ package device
 //@   ensures [C08] isKeyAx && identifier != identifierNeg && local(value) <= -0.5 ==> !has(d.analogNoteTracker, identifier)
 //@   ensures [C08] isKeyAx && identifier != identifierNeg && local(value) <= -0.5 && !a.Bidirectional ==> (has(d.analogNoteTracker, identifierNeg) <==> old(has(d.analogNoteTracker, identifierNeg))) && outLen == old(outLen) + (if old(has(d.analogNoteTracker, identifier)) then 1 else 0)
 //@   safety [C05]
-//@   modifies d.keyTracker[_], d.actionTracker[_], d.analogNoteTracker[_], d.lastAnalogValue[_][_], d.ccZeroed[_], d.octave, d.semitone, d.channel, d.mapping, d.ccLearning, out, outLen, sounding, ccv, d.externalNoteTracker
+//@   modifies d.keyTracker[_], d.actionTracker[_], d.analogNoteTracker[_], d.lastAnalogValue[_][_], d.ccZeroed[_], d.octave, d.semitone, d.channel, d.mapping, d.ccLearning, out, outLen, sounding, ccv, d.externalNoteTracker, locked
 
 // which side of a bidirectional axis the (shaped, flipped) value is on: below 0 for a signed range, below the middle otherwise
 //@ pred bidiSideNeg(signed bool, v float64) := (signed && v < 0.0) || (!signed && v < 0.5)
@@ -512,17 +536,21 @@ package device
 //@   && (ie.Event.Type == evdev.EV_ABS ==> envAbs(d, ie))
 
 //@ func (*Device).processEvent
+//@   requires [C16] !locked[d.eventProcessMutex] && !locked[d.externalTrackerMutex]
+//@   ensures [C16] locked == old(locked)
 //@   requires wf(d) && tableOK(d) && event != nil
 //@   requires event.Event.Type == evdev.EV_KEY ==> event.Event.Value == 0 || event.Event.Value == 1 || event.Event.Value == 2
 //@   requires cfgRanges(d.config) && cfgDz(d.config) && lavOK(d.config, d.lastAnalogValue) && (event.Event.Type == evdev.EV_ABS ==> envAbs(d, event))
 //@   ensures wf(d) && tableOK(d) && cfgRanges(d.config) && cfgDz(d.config) && lavOK(d.config, d.lastAnalogValue)
 //@   ensures [C01!] old(Inv(d)) && old(envEvent(d, event)) ==> Inv(d)
 //@   safety [C01]
-//@   modifies d.keyTracker[_], d.actionTracker[_], d.noteTracker[_], d.activeNotesCounter[_][_], d.analogNoteTracker[_], d.lastAnalogValue[_][_], d.ccZeroed[_], d.octave, d.semitone, d.channel, d.mapping, d.ccLearning, d.multiNote, heap("[]int"), heap("*[1]int"), out, outLen, sounding, ccv, sigs, d.externalNoteTracker
+//@   modifies d.keyTracker[_], d.actionTracker[_], d.noteTracker[_], d.activeNotesCounter[_][_], d.analogNoteTracker[_], d.lastAnalogValue[_][_], d.ccZeroed[_], d.octave, d.semitone, d.channel, d.mapping, d.ccLearning, d.multiNote, heap("[]int"), heap("*[1]int"), out, outLen, sounding, ccv, sigs, d.externalNoteTracker, locked
 
 // C01, second sentence: when the event stream ends (at any moment: the loop invariant holds after every prefix),
 // every note still tracked is released before processing ends, so nothing is left sounding at the receiver.
 //@ func (*Device).ProcessEvents
+//@   requires [C16] !locked[d.eventProcessMutex] && !locked[d.externalTrackerMutex]
+//@   loop 1 invariant [C16] !locked[d.eventProcessMutex] && !locked[d.externalTrackerMutex]
 //@   requires wf(d) && tableOK(d) && Inv(d) && cfgRanges(d.config) && cfgDz(d.config) && lavOK(d.config, d.lastAnalogValue)
 //@   assume env envEvent(d, recv)
 //@   ensures [C01] empty(d.noteTracker) && empty(d.analogNoteTracker)
@@ -576,3 +604,17 @@ package device
 //@   loop 2 invariant forall c byte, n byte :: c < ch ==> activeNoteCounter[c][n] == 0
 //@   loop 2 invariant forall n byte :: t[n] == 0
 //@   safety [C04]
+
+// ---- C17 (partial): MIDI-input tracking and panic clearing. The LED colour computation is not under contract.
+// the external tracker always has its 16 per-channel maps (re-established by Panic, which replaces it under the same mutex)
+//@ pred extOK(d *Device) := d.externalNoteTracker != nil && (forall ch byte :: ch < 16 ==> has(d.externalNoteTracker, ch) && d.externalNoteTracker[ch] != nil)
+
+//@ func (*Device).handleInputEvents
+//@   requires [C16] !locked[d.externalTrackerMutex]
+//@   loop 1 invariant [C16] !locked[d.externalTrackerMutex]
+//@   requires d != nil && extOK(d) && ctx != nil && wg != nil
+//@   assume env len(recv) == 0 || len(recv) >= 3
+//@   siteassert mapupdate(map[byte]bool) [C17] len(ev) >= 3 && ev[0] & 0xF0 == 0x90 && ev[2] > 0 && k == ev[1] && m == d.externalNoteTracker[ev[0] & 0x0F]
+//@   siteassert mapdelete(map[byte]bool) [C17] len(ev) >= 3 && (ev[0] & 0xF0 == 0x80 || (ev[0] & 0xF0 == 0x90 && ev[2] == 0)) && k == ev[1] && m == d.externalNoteTracker[ev[0] & 0x0F]
+//@   loop 1 invariant [C17] d != nil && extOK(d)
+//@   safety [C17]
